@@ -54,8 +54,9 @@ Proof.
 Qed.
 
 Lemma scan_case_stable : forall cc, cc_ok cc -> forall sigs c c',
+  (forall g, In g sigs -> sig_fold_ok cc g) ->
   lower cc c = lower cc c' -> scan cc sigs c = scan cc sigs c'.
-Proof. intros cc OK sigs c c' E. apply scan_ext. intros g _. now apply sig_case_stable. Qed.
+Proof. intros cc OK sigs c c' F E. apply scan_ext. intros g Hg. apply sig_case_stable; auto. Qed.
 
 (* if everything that matched c still matches c2, the level can only grow *)
 Lemma max_level_scan_mono : forall cc sigs c c2,
@@ -174,15 +175,16 @@ Lemma active_same : forall st st2, same_rules st st2 -> active st2 = active st.
 Proof. intros st st2 (A & B & _). unfold active. now rewrite A, B. Qed.
 
 Lemma m_case_stable_blocked : forall cfg, cc_ok (c_cc cfg) -> forall st c st' r,
+  (forall g, In g (active st) -> sig_fold_ok (c_cc cfg) g) ->
   mfilter cfg st c = (st', r) -> r_kind r = Scanned -> r_allowed r = false ->
   forall st2 c', same_rules st st2 -> lower (c_cc cfg) c' = lower (c_cc cfg) c ->
   r_allowed (snd (mfilter cfg st2 c')) = false.
 Proof.
-  intros cfg OK st c st' r H K A st2 c' S E.
+  intros cfg OK st c st' r F H K A st2 c' S E.
   destruct (mfilter cfg st2 c') as [st3 r2] eqn:H2. cbn [snd].
   apply (not_allowed_if_level _ _ _ _ _ H2).
   rewrite (active_same _ _ S). destruct S as (_ & _ & ->).
-  rewrite (scan_case_stable _ OK _ c' c E). eapply blocked_level; eauto.
+  rewrite (scan_case_stable _ OK _ c' c F E). eapply blocked_level; eauto.
 Qed.
 
 Lemma m_embed_blocked_gen : forall cfg st c st' r,
@@ -733,42 +735,153 @@ Proof.
 Qed.
 
 Lemma i_case_stable_blocked : forall cc, cc_ok cc -> forall st c st2 c' vals2,
+  (forall g, In g (i_pats st) -> sig_fold_ok cc g) ->
   i_threshold st <= max_level (scan cc (i_pats st) c) ->
   i_pats st2 = i_pats st -> i_threshold st2 = i_threshold st -> lower cc c' = lower cc c ->
   snd (icheck cc vals2 st2 c') = IRaised \/
   exists r, snd (icheck cc vals2 st2 c') = IOk r /\ ir_allowed r = false.
 Proof.
-  intros cc OK st c st2 c' vals2 L P T E.
+  intros cc OK st c st2 c' vals2 F L P T E.
   destruct (icheck cc vals2 st2 c') as [st3 o] eqn:H. cbn [snd].
   apply (i_blocked_by_signature _ _ _ _ _ _ H). rewrite P, T.
-  now rewrite (scan_case_stable cc OK _ c' c E).
+  now rewrite (scan_case_stable cc OK _ c' c F E).
 Qed.
 
 Lemma i_embed_blocked : forall cc st c st2 pre post vals2,
+  (forall g, In g (i_pats st) -> sig_embed_ok cc g) ->
   i_threshold st <= max_level (scan cc (i_pats st) c) ->
   i_pats st2 = i_pats st -> i_threshold st2 = i_threshold st ->
   last_word cc false pre = false -> head_word cc post = false ->
   snd (icheck cc vals2 st2 (pre ++ c ++ post)) = IRaised \/
   exists r, snd (icheck cc vals2 st2 (pre ++ c ++ post)) = IOk r /\ ir_allowed r = false.
 Proof.
-  intros cc st c st2 pre post vals2 L P T E1 E2.
+  intros cc st c st2 pre post vals2 EO L P T E1 E2.
   destruct (icheck cc vals2 st2 (pre ++ c ++ post)) as [st3 o] eqn:H. cbn [snd].
   apply (i_blocked_by_signature _ _ _ _ _ _ H). rewrite P, T.
   pose proof (max_level_scan_mono cc (i_pats st) c (pre ++ c ++ post)
-               (fun g _ Hm => sig_embed cc g c pre post E1 E2 Hm)). lia.
+               (fun g Hg Hm => sig_embed cc g c pre post (EO g Hg) E1 E2 Hm)). lia.
+Qed.
+
+(* ---- every signature is judged on its own, host patterns included --------------------- *)
+
+Lemma scan_app : forall cc a b c, scan cc (a ++ b) c = scan cc a c ++ scan cc b c.
+Proof. intros. unfold scan. apply filter_app. Qed.
+
+Lemma scan_company : forall cc a g b c, In g (scan cc (a ++ g :: b) c) <-> sig_matches cc g c = true.
+Proof.
+  intros. rewrite scan_in. split; [tauto|]. intros H. split; auto. apply in_or_app. right. now left.
+Qed.
+
+Lemma mstep_sigs_keep : forall cfg st op g, In g (m_sigs st) -> In g (m_sigs (fst (mstep cfg st op))).
+Proof.
+  intros cfg st op g H. destruct op; cbn [mstep fst set_learned m_sigs]; auto.
+  - destruct (mfilter cfg st content) as [st' r] eqn:F. cbn [fst].
+    destruct (mfilter_state _ _ _ _ _ F) as (L & _). now rewrite L.
+  - destruct (c_adaptive cfg); auto.
+  - apply in_or_app. now left.
+Qed.
+
+Lemma mrun_sigs_keep : forall cfg ops st g, In g (m_sigs st) -> In g (m_sigs (fst (mrun cfg st ops))).
+Proof.
+  intros cfg. induction ops as [|op ops IH]; intros st g H; cbn [mrun fst]; auto.
+  pose proof (mstep_sigs_keep cfg st op g H) as H1.
+  destruct (mstep cfg st op) as [st1 o]. cbn [fst] in H1.
+  specialize (IH st1 g H1). destruct (mrun cfg st1 ops) as [st2 rs]. exact IH.
+Qed.
+
+Lemma istep_pats_keep : forall cc vals st op g, In g (i_pats st) -> In g (i_pats (fst (istep cc vals st op))).
+Proof.
+  intros cc vals st op g H. destruct op; cbn [istep fst i_pats]; auto.
+  - destruct (icheck cc vals st content) as [st' o] eqn:F. cbn [fst].
+    unfold icheck in F. destruct (run_validators vals content); inversion F; subst; cbn [i_pats]; auto.
+  - apply in_or_app. now left.
+Qed.
+
+Lemma irun_pats_keep : forall cc ops st g, In g (i_pats st) -> In g (i_pats (irun cc st ops)).
+Proof.
+  intros cc. induction ops as [|[vals op] ops IH]; intros st g H; cbn [irun]; auto.
+  apply IH. now apply istep_pats_keep.
+Qed.
+
+(* what an active signature does to a matching input, whatever else is active *)
+Lemma active_blocks : forall cfg st g c,
+  In g (active st) -> sig_matches (c_cc cfg) g c = true ->
+  (m_threshold st <= s_level g -> r_allowed (snd (mfilter cfg st c)) = false) /\
+  (r_kind (snd (mfilter cfg st c)) = Scanned ->
+   In g (r_matched (snd (mfilter cfg st c))) /\ s_level g <= r_level (snd (mfilter cfg st c))).
+Proof.
+  intros cfg st g c A M. destruct (mfilter cfg st c) as [st' r] eqn:F. cbn [snd].
+  split.
+  - intros L. destruct (r_allowed r) eqn:E; auto.
+    destruct (m_allowed_sound _ _ _ _ _ F E) as (_ & S). specialize (S g A M). lia.
+  - intros K. destruct (m_level_is_max _ _ _ _ _ F K) as (I & G & _).
+    assert (In g (r_matched r)) by (apply I; auto). auto.
+Qed.
+
+Lemma pattern_blocks : forall cc vals st g c,
+  In g (i_pats st) -> sig_matches cc g c = true ->
+  snd (icheck cc vals st c) = IRaised \/
+  exists r, snd (icheck cc vals st c) = IOk r /\ In g (ir_matched r) /\
+            (i_threshold st <= s_level g -> ir_allowed r = false).
+Proof.
+  intros cc vals st g c H M. destruct (icheck cc vals st c) as [st' o] eqn:F. cbn [snd].
+  destruct o as [|r]; [now left|]. right. exists r. split; auto.
+  destruct (i_result_shape _ _ _ _ _ _ F) as (Hm & _). split.
+  - rewrite Hm. apply scan_in. auto.
+  - intros L. destruct (ir_allowed r) eqn:E; auto.
+    destruct (i_allowed_sound _ _ _ _ _ _ F E) as (S & _). specialize (S g H M). lia.
+Qed.
+
+Lemma host_judged_alone_all :
+  (* a host pattern's verdict is its own function of the content, nothing else *)
+  (forall cc id key f lvl c, sig_matches cc (mkSig id key (KHost f) lvl) c = f c) /\
+  (* the scan consults each signature on its own: whatever is installed before and after it *)
+  (forall cc a b c, scan cc (a ++ b) c = scan cc a c ++ scan cc b c) /\
+  (forall cc a g b c, In g (scan cc (a ++ g :: b) c) <-> sig_matches cc g c = true) /\
+  (* a signature given to the constructor or to add_signature / add_pattern is active from then on,
+     through every history *)
+  (forall cfg st g ops, In g (active (fst (mrun cfg (fst (mstep cfg st (OAddSig g))) ops)))) /\
+  (forall cfg ops st g, In g (m_sigs st) -> In g (active (fst (mrun cfg st ops)))) /\
+  (forall cc vals st g ops, In g (i_pats (irun cc (fst (istep cc vals st (IAddPattern g))) ops))) /\
+  (forall cc ops st g, In g (i_pats st) -> In g (i_pats (irun cc st ops))) /\
+  (* and while active it decides every input it matches, in whatever company *)
+  (forall cfg st g c,
+     In g (active st) -> sig_matches (c_cc cfg) g c = true ->
+     (m_threshold st <= s_level g -> r_allowed (snd (mfilter cfg st c)) = false) /\
+     (r_kind (snd (mfilter cfg st c)) = Scanned ->
+      In g (r_matched (snd (mfilter cfg st c))) /\ s_level g <= r_level (snd (mfilter cfg st c)))) /\
+  (forall cc vals st g c,
+     In g (i_pats st) -> sig_matches cc g c = true ->
+     snd (icheck cc vals st c) = IRaised \/
+     exists r, snd (icheck cc vals st c) = IOk r /\ In g (ir_matched r) /\
+               (i_threshold st <= s_level g -> ir_allowed r = false)).
+Proof.
+  split; [reflexivity|]. split; [exact scan_app|]. split; [exact scan_company|].
+  split; [|split; [|split; [|split; [|split]]]].
+  - intros cfg st g ops. unfold active. apply in_or_app. left. apply mrun_sigs_keep.
+    cbn [mstep fst m_sigs]. apply in_or_app. right. now left.
+  - intros cfg ops st g H. unfold active. apply in_or_app. left. now apply mrun_sigs_keep.
+  - intros cc vals st g ops. apply irun_pats_keep. cbn [istep fst i_pats]. apply in_or_app. right. now left.
+  - exact irun_pats_keep.
+  - exact active_blocks.
+  - exact pattern_blocks.
 Qed.
 
 (* ---- the conjunctions stated in Property.v ------------------------------------------ *)
 
 Lemma case_stable_all :
   forall cc, cc_ok cc ->
-  (forall g s s', lower cc s = lower cc s' -> sig_matches cc g s = sig_matches cc g s') /\
-  (forall sigs s s', lower cc s = lower cc s' -> scan cc sigs s = scan cc sigs s') /\
+  (forall g, sig_fold_ok cc g ->
+     forall s s', lower cc s = lower cc s' -> sig_matches cc g s = sig_matches cc g s') /\
+  (forall sigs s s', (forall g, In g sigs -> sig_fold_ok cc g) ->
+     lower cc s = lower cc s' -> scan cc sigs s = scan cc sigs s') /\
   (forall cfg, c_cc cfg = cc -> forall st c st' r,
+     (forall g, In g (active st) -> sig_fold_ok cc g) ->
      mfilter cfg st c = (st', r) -> r_kind r = Scanned -> r_allowed r = false ->
      forall st2 c', same_rules st st2 -> lower cc c' = lower cc c ->
      r_allowed (snd (mfilter cfg st2 c')) = false) /\
   (forall st c st2 c' vals2,
+     (forall g, In g (i_pats st) -> sig_fold_ok cc g) ->
      i_threshold st <= max_level (scan cc (i_pats st) c) ->
      i_pats st2 = i_pats st -> i_threshold st2 = i_threshold st -> lower cc c' = lower cc c ->
      snd (icheck cc vals2 st2 c') = IRaised \/
@@ -788,11 +901,13 @@ Lemma embed_stable_regex_all :
      search cc r s = true -> search cc r (pre ++ s ++ post) = true) /\
   (forall cfg st c st' r,
      mfilter cfg st c = (st', r) -> r_kind r = Scanned -> r_allowed r = false ->
+     (forall g, In g (r_matched r) -> sig_embed_ok (c_cc cfg) g) ->
      forall st2 pre post, same_rules st st2 ->
      ((forall g, In g (r_matched r) -> sig_edge_free_l g = true) \/ last_word (c_cc cfg) false pre = false) ->
      ((forall g, In g (r_matched r) -> sig_edge_free_r g = true) \/ head_word (c_cc cfg) post = false) ->
      r_allowed (snd (mfilter cfg st2 (pre ++ c ++ post))) = false) /\
   (forall cc st c st2 pre post vals2,
+     (forall g, In g (i_pats st) -> sig_embed_ok cc g) ->
      i_threshold st <= max_level (scan cc (i_pats st) c) ->
      i_pats st2 = i_pats st -> i_threshold st2 = i_threshold st ->
      last_word cc false pre = false -> head_word cc post = false ->
@@ -800,7 +915,7 @@ Lemma embed_stable_regex_all :
      exists r, snd (icheck cc vals2 st2 (pre ++ c ++ post)) = IOk r /\ ir_allowed r = false).
 Proof.
   split; [exact search_embed_sided | split; [|exact i_embed_blocked]].
-  intros cfg st c st' r H K A st2 pre post S E1 E2.
+  intros cfg st c st' r H K A EO st2 pre post S E1 E2.
   apply (m_embed_blocked_gen cfg st c st' r H K A st2 _ S).
   intros g Hg Hm.
   assert (Hin : In g (r_matched r)).
